@@ -51,6 +51,8 @@ NA_PATTERNS = ["none", "none", "some", "some", "first", "last", "all"]
 
 def pool(rng, kind, hostile=0.25, tags=None):
     """Return a value pool for kind; with probability `hostile` include the hostile values."""
+    if kind.endswith("_be"):
+        return pool(rng, kind[:-3], hostile, tags)
     h = rng.random() < hostile
     if kind == "bool":
         return [True, False]
@@ -135,7 +137,7 @@ def gen_values(rng, kind, n, na="none", dup="few", hostile=0.25, tags=None):
         k = rng.randint(1, min(4, len(p)))
         sub = rng.sample(p, k)
         vals = [rng.choice(sub) for _ in range(n)]
-    if kind not in NA_CAPABLE:
+    if (kind[:-3] if kind.endswith("_be") else kind) not in NA_CAPABLE:
         na = "none"
     if n and na != "none":
         if na == "all":
@@ -154,6 +156,10 @@ def np_column(kind, values):
     """Build the NumPy array for (kind, values) without going through dataiter."""
     import dataiter as di
     n = len(values)
+    if kind.endswith("_be"):
+        # the same values stored in non-native (big-endian) byte order, as arrays read from FITS / netCDF / network-order files are
+        a = np_column(kind[:-3], values)
+        return a.astype(a.dtype.newbyteorder(">"))
     if kind == "bool":
         return np.array(values, dtype=bool)
     if kind == "int":
@@ -207,7 +213,7 @@ def expected_cells(kind, values):
     for v in values:
         if v is None:
             out.append(canon.NA)
-        elif kind in ("float", "float32"):
+        elif kind in ("float", "float32", "float_be"):
             out.append(canon.canon_obj(float(np.float32(v)) if kind == "float32" else float(v)))
         else:
             out.append(canon.canon_obj(v, string_na=kind in ("str", "lstr", "ustr")))
